@@ -34,6 +34,12 @@
 (*         strategy (IlluminaBaseDemultiplexer, shortName ILLU) returns formatted strings:        *)
 (*         AttributeError, so an accepted pair takes the HandleError arm    (fastqHandle.py:39)   *)
 (*   "impl" all of them (the code at the pinned commit).                                         *)
+(* History: prior = "stale" - an earlier run into the same output prefix left per-cell files      *)
+(* behind.  HandleLimiter opens a path it has not written in THIS run with 'wb' (truncate), so    *)
+(* the first write of the run replaces the stale content; the joint sink is truncated when        *)
+(* FastqHandle is constructed.  A per-cell file that the run never writes is left alone by the    *)
+(* code and is not part of the observation.  Seeded deviation (negative control, not as-coded):   *)
+(*   "S_append_existing"  append whenever the file exists: stale records stay in the sink.        *)
 (* Not modelled: the clamp arithmetic of phredToFastqHeaderSafeQualities (D1, property C04) -    *)
 (* here it is one of the causes of outcome "E"; HandleLimiter faults (C19).                      *)
 EXTENDS DemuxProps, TLC, Json
@@ -46,16 +52,17 @@ CONSTANTS N,               \* pairs in the library
           MaxPairChoices,  \* subset of 0..N, 0 = no cut-off
           Classes,         \* subset of {"A","N","W","X","E"}
           PairLevelOnly,   \* TRUE: only outcome matrices the replay driver can realise
+          PriorChoices,    \* subset of {"none","stale"}: per-cell files of an earlier run under the same prefix
           PlainStrats,     \* strategies that return already formatted records (str) instead of tagged records
           Variant
 
 Dev(d) == Variant = "impl" \/ Variant = d
 
-VARIABLES out, cellOf, mates, hasRej, maxPairs,     \* the scenario, fixed in Init
+VARIABLES out, cellOf, mates, hasRej, maxPairs, prior,   \* the scenario, fixed in Init
           pc, pos, si, stale,                        \* control state of the loop
           tgt, rej, yields, processed, logged        \* sinks and counters
-scn  == <<out, cellOf, mates, hasRej, maxPairs>>
-vars == <<out, cellOf, mates, hasRej, maxPairs, pc, pos, si, stale, tgt, rej, yields, processed, logged>>
+scn  == <<out, cellOf, mates, hasRej, maxPairs, prior>>
+vars == <<out, cellOf, mates, hasRej, maxPairs, prior, pc, pos, si, stale, tgt, rej, yields, processed, logged>>
 
 Pairs  == 1 .. N
 Strats == 1 .. K
@@ -63,6 +70,8 @@ Strats == 1 .. K
 (* pair-level classes hit every strategy alike ("W": unknown sequencing index, "E": header that   *)
 (* no parser accepts / phred overflow in the UMI); "A"/"N" depend on the strategy's whitelist     *)
 Realisable(o) == \A p \in Pairs : (\E k \in Strats : o[p][k] \in {"W", "E", "X"}) => \A k \in Strats : o[p][k] = o[p][1]
+
+StaleRec == [id |-> 0, s |-> 0, ok |-> TRUE]      \* a record of the earlier run: not a pair of this input
 
 Init ==
     /\ out \in [Pairs -> [Strats -> Classes]]
@@ -72,13 +81,16 @@ Init ==
     /\ hasRej \in RejectChoices
     /\ maxPairs \in MaxPairChoices
     /\ pc = "read" /\ pos = 0 /\ si = 1 /\ stale = FALSE
-    /\ tgt = [c \in 1 .. NCells |-> [m \in 1 .. 2 |-> <<>>]]
+    /\ prior \in PriorChoices
+    /\ tgt = [c \in 1 .. NCells |-> [m \in 1 .. 2 |-> IF prior = "stale" /\ NCells > 1 THEN <<StaleRec>> ELSE <<>>]]
     /\ rej = [m \in 1 .. 2 |-> <<>>]
     /\ yields = [k \in Strats |-> 0]
     /\ processed = 0
     /\ logged = FALSE
 
 TRec(p, k)         == [id |-> p, s |-> k, ok |-> TRUE]
+(* the per-cell file of cell c has not been written in this run yet (only stale content, or none) *)
+Fresh(c)           == \A i \in DOMAIN tgt[c][1] : tgt[c][1][i].id = 0
 RRec(p, k, m, nl)  == [id |-> p, s |-> k, ok |-> TRUE, faithful |-> TRUE, reason |-> TRUE, content |-> <<p, m>>, nl |-> nl]
 AppendMates(f, r(_)) == [m \in 1 .. 2 |-> IF m <= mates THEN Append(f[m], r(m)) ELSE f[m]]
 
@@ -98,7 +110,11 @@ ReadPair ==
 
 WriteAccepted ==
     /\ pc = "strat" /\ Eff(pos, si) = "A"
-    /\ tgt' = [tgt EXCEPT ![cellOf[pos]] = AppendMates(@, LAMBDA m : TRec(pos, si))]
+    /\ LET c    == cellOf[pos]
+           base == IF Fresh(c) /\ Variant # "S_append_existing"
+                   THEN [m \in 1 .. 2 |-> <<>>]            \* first write of this run: opened with 'wb'
+                   ELSE tgt[c]                              \* path in `seen`: handle still open or reopened with 'ab'
+       IN tgt' = [tgt EXCEPT ![c] = AppendMates(base, LAMBDA m : TRec(pos, si))]
     /\ yields' = [yields EXCEPT ![si] = @ + 1]
     /\ Advance
     /\ UNCHANGED <<scn, pos, stale, rej, processed, logged>>
@@ -151,7 +167,7 @@ Obs ==
       acc |-> [p \in Pairs |-> [k \in Strats |-> out[p][k] = "A"]],
       processed |-> processed, yields |-> [k \in Strats |-> yields[k]],
       logged |-> logged, logProcessed |-> processed, logYields |-> [k \in Strats |-> yields[k]],
-      tgt |-> [c \in 1 .. NCells |-> [m \in 1 .. mates |-> [wf |-> TRUE, recs |-> tgt[c][m]]]],
+      tgt |-> [c \in 1 .. NCells |-> [m \in 1 .. mates |-> [wf |-> TRUE, recs |-> IF Fresh(c) THEN <<>> ELSE tgt[c][m]]]],
       rej |-> IF hasRej THEN << [m \in 1 .. mates |-> [wf |-> StreamWF(rej[m]), recs |-> rej[m]]] >> ELSE <<>> ]
 
 Quiescent == pc \in {"done", "crashed"}
